@@ -370,6 +370,9 @@ class Check(PropCheck):
                 attrs += ' id="%s"' % rng.choice('abc')
             if rng.random() < 0.3:
                 attrs += ' class="%s"' % rng.choice(['x', 'x y', 'y'])
+            if rng.random() < 0.5:
+                rel = rng.choice('abc')
+                attrs += ' rel="%s" title="%s"' % (rel, rng.choice(['v-' + rel, 'v-' + rel, 'v-a', 'v-b', rel]))
             txt = rng.choice(['', 't', ' u ', 'hi'])
             return '<%s%s>%s%s</%s>' % (nm, attrs, txt, ''.join(mk(k) for k in kids[i]), nm)
         return mk(0)
@@ -423,6 +426,13 @@ class Check(PropCheck):
                 pred = '[contains(@class, "%s")]' % rng.choice('xy')
             elif r < 0.75:
                 pred = '[@n + %d = %d and @n != %d]' % (rng.randint(0, 3), rng.randint(0, 6), rng.randint(0, 6))
+            elif r < 0.87:
+                # operands / function arguments that depend on the element under test: a compiled form that remembers a
+                # value computed for one element or tree answers wrongly on the next
+                pred = rng.choice(['[contains(@title, "v-" || @rel)]', '[@title = concat("v-", @rel)]', '[@title = "v-" || @rel]',
+                                   '[contains(concat(@title, "!"), @rel || "!")]', '[normalize-space(@title) = "v-" || @rel]',
+                                   '[@n + @n = %d]' % rng.randint(0, 8), '[contains(text(), @id)]',
+                                   '[contains("v-a v-b", @title)]'])
             steps.append(lead + axis + name + pred)
         return ''.join(steps)
 
